@@ -680,6 +680,22 @@ class Program:
         holder["ds"] = ds
         return ds
 
+    def _b_namespace(self, n):
+        body, ann = {}, {}
+        for m in n["members"]:
+            if m["t"] == "annot":
+                ann[m["name"]] = str
+            elif m["t"] == "const":
+                body[m["name"]] = copy.deepcopy(m["v"])
+            elif m["t"] == "sub":
+                body[m["name"]] = type(m["name"], (), {"X": copy.deepcopy(m["v"])})
+            elif m["t"] == "auto":
+                body[m["name"]] = Option.auto(copy.deepcopy(m["v"]), doc="a member declared with Option.auto")
+            elif m["t"] == "expr":
+                body[m["name"]] = self.ref(m["n"])  # (an Evaluatable as a member's default)
+        body["__annotations__"] = ann
+        return Option.namespace(type(n["name"], (), body))
+
     def _b_dict(self, n):
         return evaluatable_dict({key: self.ref(m) for key, m in n["items"]})
 
